@@ -55,7 +55,7 @@ package ratelimit
 //@ func newTokenBucket
 //@   props C03 C13
 //@   assume clock_stable
-//@   requires rate != nil && rate.average >= 1 && rate.burst >= 1 && rate.period >= 1
+//@   requires rate != nil && rate.average >= 1 && rate.burst >= 1 && rate.period >= 1 && rate.period / rate.average >= 1
 //@   ensures fresh_bucket: result != nil && fresh(result)
 //@   ensures full: result.availableTokens == rate.burst && result.burst == rate.burst && result.lastRefresh == lastclock && result.lastConsumed == 0 && result.period == rate.period
 //@   ensures theta: result.timePerToken == rate.period / rate.average
